@@ -31,6 +31,14 @@ def _py_call_hook(node: ast.Call, tr, env):
             and len(a.right.elts) == 1
         ):
             return tr.expr(a.right.elts[0], env)
+    # other spellings of a constant broadcast over the modes
+    f = core.src(node.func)
+    if f in ("np.full_like", "np.full") and len(node.args) >= 2:
+        return tr.expr(node.args[1], env)
+    if f in ("np.zeros_like", "np.zeros"):
+        return tr.alg.const(0)
+    if f in ("np.ones_like", "np.ones"):
+        return tr.alg.const(1)
     return None
 
 
